@@ -16,7 +16,7 @@ from __future__ import annotations
 
 import itertools
 from dataclasses import dataclass, field
-from typing import Tuple, Optional, List, Dict
+from typing import Any,  Tuple, Optional, List, Dict
 
 import z3
 
@@ -190,6 +190,24 @@ class V:
 class VInt(V):
     t: z3.ArithRef
     kind = INT
+    def cols(self): return [self.t]
+
+
+@dataclass(frozen=True)
+class RAW(Kind):
+    """a raw solver term of the given sort (ghost state only: e.g. an array Ref -> Int used as a ghost map)"""
+    sort: Any
+
+    def cols(self): return [('', self.sort)]
+    def from_cols(self, t): return VRaw(t[0])
+    def __repr__(self): return f"RAW({self.sort})"
+
+
+@dataclass(frozen=True)
+class VRaw(V):
+    t: Any
+    @property
+    def kind(self): return RAW(self.t.sort())
     def cols(self): return [self.t]
 
 
